@@ -41,10 +41,21 @@ Fixpoint parse_modifiers (elems : list node) : list str :=
 
 Definition set_of_list (l : list str) : list str := fold_right set_insert [] l.
 
+(* is_simple_ident: can be printed as an unquoted property key *)
+Definition is_ascii_alpha (c : N) : bool := is_ascii_lower c || is_ascii_upper c.
+Definition is_ascii_digit (c : N) : bool := N.leb 48 c && N.leb c 57.
+Definition is_simple_ident (m : str) : bool :=
+  match m with
+  | c :: r => (is_ascii_alpha c || N.eqb c 95 || N.eqb c 36)
+              && forallb (fun c => is_ascii_alpha c || is_ascii_digit c || N.eqb c 95 || N.eqb c 36) r
+  | [] => false
+  end.
+
 Definition transform_modifiers (mods : list str) (quote : bool) : option node :=
   match mods with
   | [] => None
-  | _ => Some (Obj (map (fun m => KV (if quote then mk_str m else IdName m) (Bool true)) mods))
+  | _ => Some (Obj (map (fun m => KV (if quote || negb (is_simple_ident m) then mk_str m else IdName m)
+                                     (Bool true)) mods))
   end.
 
 Definition nonempty_mods (m : option (list str)) : bool :=
@@ -82,6 +93,12 @@ Definition parse_v_model (value : node) (is_component : bool) (argument : option
         (empty_ident, add_diag "You have to use JSX Expression inside your `v-model`." s)
     | JExprC e => (e, s)
     | _ => (empty_ident, add_diag "You have to use JSX Expression inside your `v-model`." s)
+    end in
+  let s :=
+    match attr_value with
+    | Arr (Elem false _ :: _) => s
+    | Arr _ => add_diag "The first element of `v-model` array must be the bound expression." s
+    | _ => s
     end in
   let '(value', argument, modifiers) :=
     match attr_value with
